@@ -59,7 +59,7 @@ EMPTY = z3.StringVal("")
 SPEC_FUNCS = (
     "joined old count n_count first_start last_end chain_ok span_ok joined_values "
     "implies is_none appended length seq_of at unchanged strip lstrip rstrip isspace "
-    "startswith endswith contains substr ite same present is_ctor or_empty"
+    "startswith endswith contains substr ite same present is_ctor or_empty field"
 ).split()
 
 
@@ -276,6 +276,12 @@ class Engine(object):
             )
         if kind == "ctor":
             return VCtor(None, None)
+        if isinstance(kind, (tuple, list)) and st is not None:
+            return VTuple([self.fresh_value(k, "%s[%d]" % (name, i), st) for i, k in enumerate(kind)])
+        if isinstance(kind, str) and kind.startswith("list:seq:") and st is not None:
+            lo, asm = ListObj.fresh("seq", name, {"str": S, "int": I, "opaque": Opaque}[kind[9:]])
+            st.assume(*asm)
+            return st.alloc(lo)
         if isinstance(kind, str) and kind.startswith("list:") and st is not None:
             lo, asm = ListObj.fresh(kind[5:], name)
             st.assume(*asm)
@@ -283,7 +289,10 @@ class Engine(object):
         if isinstance(kind, dict) and st is not None:  # record
             rec = RecordObj({})
             for k, kk in kind.items():
-                rec.fields[k] = (z3.BoolVal(True), self.fresh_value(kk, name + "." + k, st))
+                if k.endswith("?"):  # optional key: symbolic presence bit
+                    rec.fields[k[:-1]] = (fresh(name + "." + k[:-1] + ".present", B), self.fresh_value(kk, name + "." + k[:-1], st))
+                else:
+                    rec.fields[k] = (z3.BoolVal(True), self.fresh_value(kk, name + "." + k, st))
             return st.alloc(rec)
         return VOpaque(note=name)
 
@@ -410,9 +419,24 @@ class Engine(object):
         """Unsupported expression: fresh unconstrained value; tracked objects mentioned are havocked"""
         txt = ast.unparse(e)
         self.abstracted.add("abstracted: %s" % (txt if len(txt) < 160 else txt[:157] + "..."))
+        par = {}
+        for n in ast.walk(e):
+            for ch in ast.iter_child_nodes(n):
+                par[id(ch)] = n
         for n in ast.walk(e):
             if isinstance(n, ast.Name):
                 v = st.lookup(n.id)
+                if isinstance(v, VRef) and isinstance(st.heap.get(v.rid), RecordObj):
+                    # reading an immutable field (`rec["k"]`, `rec.get("k")`) cannot mutate the record
+                    p_ = par.get(id(n))
+                    rec = st.heap[v.rid]
+                    key = None
+                    if isinstance(p_, ast.Subscript) and p_.value is n and isinstance(p_.slice, ast.Constant) and isinstance(p_.ctx, ast.Load):
+                        key = p_.slice.value
+                    elif isinstance(p_, ast.Attribute) and p_.attr == "get" and isinstance(par.get(id(p_)), ast.Call) and par[id(p_)].args and isinstance(par[id(p_)].args[0], ast.Constant):
+                        key = par[id(p_)].args[0].value
+                    if key is not None and (key not in rec.fields or not isinstance(rec.fields[key][1], VRef)):
+                        continue
                 if isinstance(v, VRef) and self.may_mutate(e, n.id):
                     self.havoc_obj(v, st, n.id)
                     st.notes.append("imprecise: %s havocked by unsupported expression `%s`" % (n.id, txt[:80]))
@@ -650,6 +674,12 @@ class Engine(object):
                 self.abstracted.add("abstracted: == between %s and %s" % (type(a).__name__, type(b).__name__))
             return c if isinstance(op, ast.Eq) else z3.Not(c)
         if isinstance(op, (ast.Is, ast.IsNot)):
+            if isinstance(a, VPy) and isinstance(b, VPy):
+                c = z3.BoolVal(a.obj is b.obj)
+                return c if isinstance(op, ast.Is) else z3.Not(c)
+            if (isinstance(a, VPy) and isinstance(b, (VStr, VInt, VBool, VNone, VTuple))) or (isinstance(b, VPy) and isinstance(a, (VStr, VInt, VBool, VNone, VTuple))):
+                c = z3.BoolVal(False)
+                return c if isinstance(op, ast.Is) else z3.Not(c)
             if isinstance(b, VNone) or isinstance(a, VNone):
                 c = self.equal(a, b, st)
                 if c is None:
@@ -670,6 +700,10 @@ class Engine(object):
         if isinstance(container, VStr) and isinstance(x, VStr):
             return z3.Contains(container.z, x.z)
         if isinstance(container, VPy) and isinstance(container.obj, (frozenset, set, tuple, list, dict)):
+            if isinstance(x, VNone):
+                return z3.BoolVal(None in container.obj)
+            if isinstance(x, VBool) and z3.is_false(x.z) or isinstance(x, VBool) and z3.is_true(x.z):
+                return z3.BoolVal(z3.is_true(x.z) in container.obj)
             if isinstance(x, VStr):
                 return z3.Or(*[x.z == z3.StringVal(c) for c in container.obj if isinstance(c, str)]) if container.obj else z3.BoolVal(False)
         if isinstance(container, VTuple):
@@ -808,6 +842,13 @@ class Engine(object):
                 if -len(base.items) <= k < len(base.items):
                     outs.append((s, base.items[k]))
                 continue
+            if isinstance(base, VPy) and isinstance(base.obj, dict) and isinstance(idx, VStr) and base.obj and all(isinstance(k, str) and isinstance(v, str) for k, v in base.obj.items()):
+                # lookup in a constant str -> str table (KeyError path ends)
+                r = fresh("lookup", S)
+                s.assume(z3.Or(*[z3.And(idx.z == z3.StringVal(k), r == z3.StringVal(v)) for k, v in base.obj.items()]))
+                if self.feasible(s):
+                    outs.append((s, VStr(r)))
+                continue
             if isinstance(base, VPy) and isinstance(base.obj, dict) and isinstance(idx, (VStr, VOpaque)):
                 # lookup in a constant table: any of its values (KeyError path ends)
                 vals = list(base.obj.values())
@@ -903,7 +944,9 @@ class Engine(object):
                         if o.kind == "empty":
                             outs.append((s, VStr(EMPTY)))
                             continue
-                    raise Unsupported("join")
+                    # join over something the views do not describe: some string (argument already evaluated)
+                    self.abstracted.add("abstracted: %s (an arbitrary string)" % ast.unparse(e)[:100])
+                    outs.append((s, VStr(fresh("joined", S))))
                 self.assumptions.add("stdlib spec: ''.join(xs) is the concatenation of the elements of xs")
                 return outs
             outs = []
@@ -915,8 +958,12 @@ class Engine(object):
                     return self.call_value(tgt, e, st)
             for s, recv in self.eval(f.value, st):
                 for s2, (args, kwargs) in self.eval_args(e, s):
-                    for s3, r in self.call_method(recv, f.attr, args, kwargs, s2, e):
-                        outs.append((s3, r))
+                    try:
+                        for s3, r in self.call_method(recv, f.attr, args, kwargs, s2, e):
+                            outs.append((s3, r))
+                    except Unsupported as ex:
+                        extra = [recv] if (isinstance(recv, VRef) and f.attr in self.MUTATORS) else []
+                        outs.append((s2, self.abstract_call(e, extra + list(args) + list(kwargs.values()), s2, str(ex))))
             return outs
         if (
             isinstance(f, ast.Name) and f.id == "count_iter_items" and len(e.args) == 1 and not e.keywords
@@ -990,8 +1037,21 @@ class Engine(object):
     def call_value(self, fv, e, st):
         outs = []
         for s, (args, kwargs) in self.eval_args(e, st):
-            outs.extend(self.apply(fv, args, kwargs, s, e))
+            try:
+                outs.extend(self.apply(fv, args, kwargs, s, e))
+            except Unsupported as ex:
+                # the arguments have been evaluated (their effects are in `s`); the call itself is abstracted
+                outs.append((s, self.abstract_call(e, list(args) + list(kwargs.values()), s, str(ex))))
         return outs
+
+    def abstract_call(self, e, argvals, st, why):
+        txt = ast.unparse(e)
+        self.abstracted.add("abstracted call: %s" % (txt if len(txt) < 140 else txt[:137] + "..."))
+        for a in argvals:
+            if isinstance(a, VRef):
+                self.havoc_obj(a, st, "arg")
+                st.notes.append("imprecise: mutable object passed to abstracted call `%s` havocked" % txt[:60])
+        return VOpaque(note=txt[:60])
 
     def apply(self, fv, args, kwargs, st, e=None):
         """Apply a callable value -> [(state, value)]"""
@@ -1155,6 +1215,15 @@ class Engine(object):
                         if self.feasible(s2):
                             outs.append((s2, val))
                     return outs
+                if m == "update" and len(args) == 1 and isinstance(args[0], VRef) and isinstance(st.heap[args[0].rid], RecordObj) and not kwargs:
+                    src = st.heap[args[0].rid]
+                    n = RecordObj(o.fields)
+                    for k, (p, v) in src.fields.items():
+                        if not z3.is_true(p):
+                            raise Unsupported("update from a record with optional keys")
+                        n.fields[k] = (z3.BoolVal(True), v)
+                    st.heap[recv.rid] = n
+                    return [(st, VNone())]
                 if m == "pop" and args and isinstance(args[0], VStr) and z3.is_string_value(args[0].z):
                     k = args[0].z.as_string()
                     has_d = len(args) > 1
@@ -1339,6 +1408,12 @@ class Engine(object):
         if name == "is_none":
             c = self.equal(args[0], VNone(), st)
             return VBool(c if c is not None else z3.BoolVal(False))
+        if name == "field":
+            r = st.heap[args[0].rid]
+            k_ = args[1].z.as_string()
+            if k_ not in r.fields:
+                return VStr(fresh("absent_field", S))  # only meaningful under present(...)
+            return r.fields[k_][1]
         if name == "or_empty":
             v = args[0]
             if isinstance(v, VNone):
@@ -1607,6 +1682,27 @@ class Engine(object):
                         if t.id in f:
                             del f[t.id]
                             break
+                elif isinstance(t, ast.Subscript) and isinstance(t.slice, ast.Constant) and isinstance(t.slice.value, str):
+                    outs_d = []
+                    for s_, base in self.eval(t.value, st):
+                        if isinstance(base, VRef) and isinstance(s_.heap[base.rid], RecordObj):
+                            o = s_.heap[base.rid]
+                            k = t.slice.value
+                            if k not in o.fields:
+                                continue  # KeyError
+                            p_, v_ = o.fields[k]
+                            s_.assume(p_)  # KeyError otherwise
+                            if not self.feasible(s_):
+                                continue
+                            n_ = RecordObj(o.fields)
+                            n_.fields[k] = (z3.BoolVal(False), v_)
+                            s_.heap[base.rid] = n_
+                            outs_d.append(s_)
+                        else:
+                            raise Unsupported("del of a subscript of %s" % type(base).__name__)
+                    if len(node.targets) != 1:
+                        raise Unsupported("del with several targets")
+                    return [(s_, (NORMAL, None)) for s_ in outs_d]
                 else:
                     raise Unsupported("del of non-name")
             return [(st, (NORMAL, None))]
